@@ -143,29 +143,9 @@ impl<R: Round> Context<R> {
     pub fn mul<const B: Word>(&self, lhs: &Repr<B>, rhs: &Repr<B>) -> Rounded<FBig<R, B>> {
         assert_finite_operands(lhs, rhs);
 
-        // at most double the precision is required to get a correct result
-        // shrink the input operands if necessary
-        let max_precision = if self.is_limited() {
-            self.precision * 2
-        } else {
-            usize::MAX
-        };
-
-        let lhs_shrink;
-        let lhs_repr = if lhs.digits() > max_precision {
-            lhs_shrink = Context::<R>::new(max_precision).repr_round_ref(lhs).value();
-            &lhs_shrink
-        } else {
-            lhs
-        };
-
-        let rhs_shrink;
-        let rhs_repr = if rhs.digits() > max_precision {
-            rhs_shrink = Context::<R>::new(max_precision).repr_round_ref(rhs).value();
-            &rhs_shrink
-        } else {
-            rhs
-        };
+        // the operands are multiplied exactly and the product is rounded once, like the `*`
+        // operator does (rounding the operands first would round twice)
+        let (lhs_repr, rhs_repr) = (lhs, rhs);
 
         let repr = Repr::new(
             &lhs_repr.significand * &rhs_repr.significand,
